@@ -33,6 +33,9 @@ func sealScopePkgs(rel string) bool {
 
 func c08() []*Ob {
 	return []*Ob{
+		{Prop: "C08", ID: "C08.9", Engine: "SENTINEL(empty block)", Floor: 1,
+			Desc:  "an empty block means end of section and nothing else: BlockFormer.FlushForced calls WriteBlock only under len(packer.Data) != 0 (or every caller of FlushForced has established it) — a forced flush of an empty packer writes a zero-length registry entry, the readers stop there, every later section of the published index is misread after the restart, and the originals are gone",
+			Check: func(c *Ctx) { dataBlocksAreNotEmpty(c) }},
 		{Prop: "C08", ID: "C08.6", Engine: "OWN(who-may-create)", Floor: 2,
 			Desc: "a published name is only ever the target of a rename: no os.Create / os.OpenFile(O_CREATE) in packages frac, fracmanager and disk builds its path from consts.IndexFileSuffix or consts.SdocsFileSuffix — the names the loader takes for \"sealing has completed\"; the sealed files are written under their temporary suffixes and renamed after the sync. An index written in place under .index is published before its first byte: a crash or a failed write leaves a torn index that the next start serves, after deleting .meta",
 			Check: func(c *Ctx) {
@@ -194,6 +197,9 @@ func c08() []*Ob {
 					AckCheck(c, fn, []Must{{Name: "Seek", M: Callee("(io.Seeker).Seek")}, {Name: "Write", M: Callee("(io.Writer).Write")}}, nil)
 				}
 			}},
+		{Prop: "C08", ID: "C08.8", Engine: "FIELDS+ALIAS", Floor: 2,
+			Desc:  "the index is written from this sealing's own tables: what writeSortedDocs hands on from the pooled docBlocksWriter (block offsets, the map of new document positions) is a copy — the writer goes back to the pool when writeSortedDocs returns, before the positions are written into the ID blocks, so an overlapping Seal of the next fraction (maintenance starts one per rotation) clears and refills the map: the index is published with 'position not found' for every document, the seal reports success and the originals are removed (shared rule with C03.4)",
+			Check: shared("C03.4")},
 		{Prop: "C08", ID: "C08.7", Engine: "ACK+PROV(position)", Floor: 2,
 			Desc: "a block is where the registry says it is: BlocksWriter.WriteBlock returns success only after the Write of the block on the underlying writer has succeeded (nothing is left in a buffer of its own that a later, larger block could overtake), and the position it registers for the block, when it is taken from Seek, is that result unchanged — a registered position computed from the file position plus what is pending is wrong as soon as one block bypasses the buffer: Seal publishes an index whose blocks cannot be read, after the originals are gone",
 			Check: func(c *Ctx) {
